@@ -49,6 +49,11 @@ def derive_seed(*parts):
 def _task(args):
     pid, part_name, shard, nshards, n, steps, seed_value, tier, known = args
     os.environ["VERIF_TIER"] = tier
+    try:  # kill -USR1 <pid> dumps the Python stack of a worker (diagnosis of slow cases)
+        import faulthandler, signal
+        faulthandler.register(signal.SIGUSR1, all_threads=True)
+    except Exception:
+        pass
     from . import core
     mod = importlib.import_module(f"vf.props.{pid.lower()}")
     part = {p.name: p for p in mod.parts(tier)}[part_name]
